@@ -449,8 +449,9 @@ impl CampStats {
         for (k, v) in o.known_samples {
             self.known_samples.entry(k).or_insert(v);
         }
-        if self.samples.len() < 6 {
-            self.samples.extend(o.samples.into_iter().take(2));
+        // one sample history per job, so that the evidence shows different instantiations
+        if self.samples.len() < 12 && !self.samples.iter().any(|x| o.samples.first().map(|y| x["sut"] == y["sut"] && x["actions"] == y["actions"]).unwrap_or(false)) {
+            self.samples.extend(o.samples.into_iter().take(1));
         }
         self.schedules.extend(o.schedules);
         self.shrink_execs += o.shrink_execs;
@@ -511,7 +512,7 @@ pub fn run_slice<S: Sut>(base_seed: u64, from: u64, to: u64, cfg: Cfg, sweep: Op
         }
         if st.samples.len() < 2 && out.viol.is_none() && out.script.len() >= 4 {
             let o2 = exec::<S>(&out.script, cfg, false);
-            st.samples.push(serde_json::json!({"sut": S::NAME, "seed": seed, "actions": out.script.len(), "ops": o2.world.ops.len(), "log": o2.world.log.iter().take(40).collect::<Vec<_>>()}));
+            st.samples.push(serde_json::json!({"sut": S::NAME, "seed": seed, "actions": out.script.len(), "ops": o2.world.ops.len(), "log": o2.world.log.iter().take(30).collect::<Vec<_>>()}));
         }
         let Some(v) = out.viol else { continue };
         // attribution (DESIGN §5)
